@@ -3,6 +3,7 @@ package gohlslib
 import (
 	"bytes"
 	"fmt"
+	"sync"
 	"time"
 
 	"github.com/bluenviron/gohlslib/v2/pkg/codecs"
@@ -87,6 +88,7 @@ type muxerSegmenter struct {
 	variant            MuxerVariant
 	segmentMinDuration time.Duration
 	partMinDuration    time.Duration
+	mutex              *sync.Mutex
 	parent             muxerSegmenterParent
 
 	pendingParamsChange            bool
@@ -122,7 +124,9 @@ func (s *muxerSegmenter) writeAV1(
 
 			if !bytes.Equal(codec.SequenceHeader, obu) {
 				s.pendingParamsChange = true
+				s.mutex.Lock()
 				codec.SequenceHeader = obu
+				s.mutex.Unlock()
 			}
 		}
 	}
@@ -178,27 +182,39 @@ func (s *muxerSegmenter) writeVP9(
 
 		if v := h.Width(); v != codec.Width {
 			s.pendingParamsChange = true
+			s.mutex.Lock()
 			codec.Width = v
+			s.mutex.Unlock()
 		}
 		if v := h.Height(); v != codec.Height {
 			s.pendingParamsChange = true
+			s.mutex.Lock()
 			codec.Height = v
+			s.mutex.Unlock()
 		}
 		if h.Profile != codec.Profile {
 			s.pendingParamsChange = true
+			s.mutex.Lock()
 			codec.Profile = h.Profile
+			s.mutex.Unlock()
 		}
 		if h.ColorConfig.BitDepth != codec.BitDepth {
 			s.pendingParamsChange = true
+			s.mutex.Lock()
 			codec.BitDepth = h.ColorConfig.BitDepth
+			s.mutex.Unlock()
 		}
 		if v := h.ChromaSubsampling(); v != codec.ChromaSubsampling {
 			s.pendingParamsChange = true
+			s.mutex.Lock()
 			codec.ChromaSubsampling = v
+			s.mutex.Unlock()
 		}
 		if h.ColorConfig.ColorRange != codec.ColorRange {
 			s.pendingParamsChange = true
+			s.mutex.Lock()
 			codec.ColorRange = h.ColorConfig.ColorRange
+			s.mutex.Unlock()
 		}
 	}
 
@@ -249,19 +265,25 @@ func (s *muxerSegmenter) writeH265(
 		case h265.NALUType_VPS_NUT:
 			if !bytes.Equal(codec.VPS, nalu) {
 				s.pendingParamsChange = true
+				s.mutex.Lock()
 				codec.VPS = nalu
+				s.mutex.Unlock()
 			}
 
 		case h265.NALUType_SPS_NUT:
 			if !bytes.Equal(codec.SPS, nalu) {
 				s.pendingParamsChange = true
+				s.mutex.Lock()
 				codec.SPS = nalu
+				s.mutex.Unlock()
 			}
 
 		case h265.NALUType_PPS_NUT:
 			if !bytes.Equal(codec.PPS, nalu) {
 				s.pendingParamsChange = true
+				s.mutex.Lock()
 				codec.PPS = nalu
+				s.mutex.Unlock()
 			}
 		}
 	}
@@ -330,13 +352,17 @@ func (s *muxerSegmenter) writeH264(
 		case h264.NALUTypeSPS:
 			if !bytes.Equal(codec.SPS, nalu) {
 				s.pendingParamsChange = true
+				s.mutex.Lock()
 				codec.SPS = nalu
+				s.mutex.Unlock()
 			}
 
 		case h264.NALUTypePPS:
 			if !bytes.Equal(codec.PPS, nalu) {
 				s.pendingParamsChange = true
+				s.mutex.Lock()
 				codec.PPS = nalu
+				s.mutex.Unlock()
 			}
 		}
 	}
